@@ -385,10 +385,14 @@ def _sum_kinds(node, kinds, lab):
         copied = d.get(a.value.id)
     for t in a.targets:
         names = [x.id for x in ast.walk(t) if isinstance(x, ast.Name)]
-        for nm in names:
+        for i, nm in enumerate(names):
             d.pop(nm, None)
             if fnm == 'checksum':
                 d[nm] = 'src'
+            elif fnm == 'scandat' and len(names) == 4 and i in (1, 2):
+                # fn, startpos, endpos, sum = scandat(...): the range of
+                # the last increment
+                d[nm] = 'repo-start' if i == 1 else 'repo-end'
             elif fnm in ('concat', 'scandat'):
                 d[nm] = 'repo'
             elif copied is not None and isinstance(t, ast.Name):
@@ -404,8 +408,26 @@ def _sum_compare(e, truth, kinds):
                 e.left, ast.Name) and isinstance(e.comparators[0], ast.Name):
         k = dict(kinds)
         ks = {k.get(e.left.id), k.get(e.comparators[0].id)}
-        if ks == {'src', 'repo'}:
+        if 'src' in ks and any(x and x.startswith('repo') for x in ks):
             return isinstance(e.ops[0], ast.Eq) == truth
+    return None
+
+
+def _range_nonempty(e, truth, kinds):
+    """does `e` (taken with `truth`) say that the range of the last
+    increment (start..end from scandat) is not empty?"""
+    if isinstance(e, ast.Compare) and len(e.ops) == 1 and isinstance(
+            e.left, ast.Name) and isinstance(e.comparators[0], ast.Name):
+        k = dict(kinds)
+        a, b_ = k.get(e.left.id), k.get(e.comparators[0].id)
+        if {a, b_} == {'repo-start', 'repo-end'}:
+            op = type(e.ops[0])
+            if op in (ast.Eq, ast.NotEq):
+                return (op is ast.NotEq) == truth
+            lt = (op is ast.Lt and a == 'repo-start') or (
+                op is ast.Gt and a == 'repo-end')
+            if lt:
+                return truth
     return None
 
 
@@ -417,21 +439,33 @@ def r5(R):
     sites = [0]
 
     def edge(node, st, lab, tgt):
-        m, kinds = st
+        m, kinds, nonempty = st
         kinds = _sum_kinds(node, kinds, lab)
         if node.kind == 'test' and lab in ('T', 'F'):
             for e, truth in implied_atoms(node.ast, lab):
                 r = _sum_compare(e, truth, kinds)
                 if r is not None:
                     m = 'match' if r else 'differ'
-        return (m, kinds)
+                ne = _range_nonempty(e, truth, kinds)
+                if ne is not None:
+                    nonempty = ne
+        return (m, kinds, nonempty)
 
     def at(node, st):
-        m, kinds = st
+        m, kinds, nonempty = st
         for op in F.ops(node):
             if op.kind == 'call' and op.path and op.path[-1].endswith(
                     'do_incremental_backup'):
                 sites[0] += 1
+                if m == 'match' and 'repo-start' in dict(kinds).values() \
+                        and not nonempty:
+                    return Violation(
+                        'a quick incremental backup is licensed by the '
+                        'checksum of the last increment\'s range without '
+                        'that range having been found non-empty: an empty '
+                        'increment (a backup taken while a transaction was '
+                        'voted) matches whatever the file holds, a pack is '
+                        'not noticed and recovery yields garbage')
                 if m != 'match':
                     return Violation(
                         'an incremental backup is taken although the '
@@ -442,7 +476,7 @@ def r5(R):
                             else 'not compared'))
         return st
 
-    vs, stats = explore(g, ('none', frozenset()), at=at, edge=edge)
+    vs, stats = explore(g, ('none', frozenset(), False), at=at, edge=edge)
     R.count(stats)
     R.instance('do_backup incremental call sites', n=sites[0])
     R.instance('prefix checksum comparison')
